@@ -227,6 +227,10 @@ func JWTSecurity(name string, fn ...func()) *expr.SchemeExpr {
 //	    })
 //	})
 func Security(args ...any) {
+	if len(args) == 0 {
+		eval.TooFewArgError()
+		return
+	}
 	var dsl func()
 	if d, ok := args[len(args)-1].(func()); ok {
 		args = args[:len(args)-1]
@@ -654,6 +658,10 @@ func useDSL(args []any, d func()) []any {
 		return []any{d}
 	}
 	ds, ok := args[len(args)-1].(func())
+	if ok && ds == nil {
+		args[len(args)-1] = d
+		return args
+	}
 	if ok {
 		newdsl := func() { ds(); d() }
 		args = append(args[:len(args)-1], newdsl)
